@@ -4,6 +4,9 @@ import (
 	"context"
 	"encoding/json"
 	"fmt"
+	"net"
+	"net/http"
+	"net/http/httptest"
 	"runtime"
 	"sort"
 	"strings"
@@ -502,4 +505,185 @@ func idsOf[S any](l []S) string { return fmt.Sprintf("%d requests", len(l)) }
 
 func TestC01(t *testing.T) {
 	RunProp(t, Prop[C01Case]{ID: "C01", Gen: genC01, Exec: execC01, NT: ntC01})
+}
+
+// ---------------------------------------------------------------------------
+// C01Fault: the handler runs exactly once per request, also when the connection that carried the request dies after the
+// server has processed it. The library's HTTP clients talk over real loopback TCP (net/http's own transport with
+// keep-alive connections, which may replay requests it considers safe to replay) to a library server behind a front
+// that, for the calls the Case marks, lets the real handler run to completion and then kills the connection at a drawn
+// point of the response. Without a retry option nothing may be sent twice: every handler counter is exactly 1, and the
+// call that lost its connection ends with an error or with its own answer.
+
+type C01FaultCase struct {
+	Mode  Mode  `json:"mode"`  // a Streamable mode or legacy SSE
+	Calls []int `json:"calls"` // per call: 0 undisturbed, 1 close before any response byte, 2 reset before any byte, 3 close after the status line, 4 close inside the body
+	Conc  int   `json:"conc"`  // calls issued at once (1 = sequential: the next call re-uses the idle connection)
+}
+
+func execC01Fault(c C01FaultCase) *Failure {
+	w := NewWorld(c.Mode, RegSpec{}, WorldOpt{})
+	defer w.Close()
+	c01Register(w, RegistrarOf(serverOf(w)))
+	var inner http.Handler
+	path := "/mcp"
+	if c.Mode.IsStreamable() {
+		inner = w.Srv.Handler()
+	} else {
+		inner = http.HandlerFunc(w.SSE.ServeHTTP)
+		path = "/sse"
+	}
+	var killMu sync.Mutex
+	kill := map[string]int{}
+	front := http.HandlerFunc(func(rw http.ResponseWriter, r *http.Request) {
+		if r.Method != http.MethodPost {
+			inner.ServeHTTP(rw, r)
+			return
+		}
+		body, _ := readAllAndRestore(r)
+		how := 0
+		var m struct {
+			Params struct {
+				Arguments struct {
+					Nonce string `json:"nonce"`
+				} `json:"arguments"`
+			} `json:"params"`
+		}
+		if json.Unmarshal(body, &m) == nil && m.Params.Arguments.Nonce != "" {
+			killMu.Lock()
+			how = kill[m.Params.Arguments.Nonce]
+			killMu.Unlock()
+		}
+		if how == 0 {
+			inner.ServeHTTP(rw, r)
+			return
+		}
+		rec := httptest.NewRecorder()
+		inner.ServeHTTP(rec, r) // the request is processed completely ...
+		hj, ok := rw.(http.Hijacker)
+		if !ok {
+			return
+		}
+		conn, _, err := hj.Hijack() // ... and the connection dies before / while the answer goes out
+		if err != nil {
+			return
+		}
+		switch how {
+		case 2:
+			if tc, ok := conn.(*net.TCPConn); ok {
+				tc.SetLinger(0)
+			}
+		case 3:
+			fmt.Fprintf(conn, "HTTP/1.1 %d OK\r\n", rec.Code)
+		case 4:
+			b := rec.Body.Bytes()
+			fmt.Fprintf(conn, "HTTP/1.1 %d OK\r\nContent-Type: %s\r\nContent-Length: %d\r\n\r\n", rec.Code, rec.Header().Get("Content-Type"), len(b)+10)
+			conn.Write(b[:len(b)/2])
+		}
+		conn.Close()
+	})
+	ts := httptest.NewServer(front)
+	defer ts.Close()
+	info := mcp.Implementation{Name: "verif-lib-client", Version: "1"}
+	var cl *mcp.Client
+	var err error
+	if c.Mode.IsStreamable() {
+		cl, err = mcp.NewClient(ts.URL+path, info, mcp.WithClientLogger(nopLogger{}), mcp.WithClientGetSSEEnabled(false))
+	} else {
+		cl, err = mcp.NewSSEClient(ts.URL+path, info, mcp.WithClientLogger(nopLogger{}))
+	}
+	if err != nil {
+		return Failf("C01/connect", "%s: %v", c.Mode, err)
+	}
+	defer cl.Close()
+	ictx, icancel := context.WithTimeout(context.Background(), 20*time.Second)
+	_, err = cl.Initialize(ictx, &mcp.InitializeRequest{})
+	icancel()
+	if err != nil {
+		return Failf("C01/connect", "%s: initialize: %v", c.Mode, err)
+	}
+	type outcome struct {
+		nonce string
+		how   int
+		text  string
+		err   error
+	}
+	outs := make([]outcome, len(c.Calls))
+	conc := c.Conc
+	if conc < 1 {
+		conc = 1
+	}
+	for base := 0; base < len(c.Calls); base += conc {
+		var wg sync.WaitGroup
+		for i := base; i < base+conc && i < len(c.Calls); i++ {
+			nonce := fmt.Sprintf("f%d", i)
+			outs[i] = outcome{nonce: nonce, how: c.Calls[i]}
+			killMu.Lock()
+			kill[nonce] = c.Calls[i]
+			killMu.Unlock()
+			wg.Add(1)
+			go func(i int) {
+				defer wg.Done()
+				// a killed legacy-SSE POST has no answer to wait for once the POST failed; bound the wait for the others
+				ctx, cancel := context.WithTimeout(context.Background(), 10*time.Second)
+				defer cancel()
+				req := &mcp.CallToolRequest{}
+				req.Params.Name = "echo"
+				req.Params.Arguments = map[string]interface{}{"nonce": nonce, "size": 10, "lat": 0}
+				res, err := cl.CallTool(ctx, req)
+				outs[i].err = err
+				if err == nil && len(res.Content) == 1 {
+					if tc, ok := res.Content[0].(mcp.TextContent); ok {
+						outs[i].text = tc.Text
+					}
+				}
+			}(i)
+		}
+		wg.Wait()
+	}
+	where := fmt.Sprintf("%s over TCP, calls %v, %d at once", c.Mode, c.Calls, conc)
+	w.callMu.Lock()
+	counts := map[string]int{}
+	for k, v := range w.Calls {
+		counts[k] = v
+	}
+	w.callMu.Unlock()
+	for _, o := range outs {
+		if n := counts["echo:"+o.nonce]; n != 1 {
+			return Failf("C01/fault/handler-runs/"+c.Mode.String(), "%s: the handler ran %d times for call %s (connection fault kind %d after the server had processed it; outcome %q / %v)", where, n, o.nonce, o.how, o.text, o.err)
+		}
+		if o.err == nil && o.text != c01Answer(o.nonce, 10) {
+			return Failf("C01/fault/foreign-answer/"+c.Mode.String(), "%s: call %s (fault kind %d) returned %.80q, its own answer is %.80q", where, o.nonce, o.how, o.text, c01Answer(o.nonce, 10))
+		}
+		if o.how == 0 && o.err != nil {
+			f := Failf("C01/fault/call-failed/"+c.Mode.String(), "%s: undisturbed call %s failed: %v", where, o.nonce, o.err)
+			f.Timing = isTimeoutText(o.err.Error())
+			return f
+		}
+	}
+	return nil
+}
+
+func TestC01Fault(t *testing.T) {
+	RunProp(t, Prop[C01FaultCase]{ID: "C01",
+		Gen: func(t *rapid.T) C01FaultCase {
+			c := C01FaultCase{Mode: rapid.SampledFrom([]Mode{ModeSJ, ModeSS, ModeLJ, ModeLS, ModeNS, ModeLegacy}).Draw(t, "mode"), Conc: rapid.SampledFrom([]int{1, 1, 1, 2, 4}).Draw(t, "conc")}
+			n := rapid.IntRange(1, 8).Draw(t, "ncalls")
+			for i := 0; i < n; i++ {
+				c.Calls = append(c.Calls, rapid.SampledFrom([]int{0, 0, 1, 2, 3, 4}).Draw(t, "how"))
+			}
+			return c
+		},
+		Exec: execC01Fault,
+		NT: func(c C01FaultCase) (bool, []string) {
+			nt := false
+			l := []string{"mode=" + c.Mode.String()}
+			for _, h := range c.Calls {
+				if h != 0 {
+					nt = true
+				}
+				l = append(l, fmt.Sprintf("fault=%d", h))
+			}
+			return nt, l
+		}})
 }
